@@ -20,7 +20,7 @@ CLAIMS = {
          "is_superset_checked, and for every configuration of the planned fixes F2/F3); lexer spans are consecutive and faithful; the parser's flat CST is "
          "well-formed; both tree-level inference paths never panic and the value path never fails; the value path enters each value once. RECURSION DEPTH is proved bounded for every input "
          "(C05_parse_depth_bound: at most 772 nested parser frames; C05_walk_depth_bound: at most 515 nested walk frames; C05_from_str_depth_bound; C05_lexer_nesting_bound: the lexer "
-         "never pushes more than 256 open brackets; C05_cst_is_tree; value path: jdepth+1) through depth-instrumented twins proved equal to the model functions; the walk's twin is tied to /repo by a depth hook "
+         "never pushes more than 256 open brackets; C05_cst_is_tree; value path: jdepth+1; C05_shape_depth_bound: every inferred shape is at most as deep as its document, which bounds the structural recursion of merger / is_subset) through depth-instrumented twins proved equal to the model functions; the walk's twin is tied to /repo by a depth hook "
          "(maximal nesting of parse_cst/parse_rule/parse_member/parse_token frames = walk_depth on every sampled text and on nests of 1..1000 levels; 515 is attained). Correspondence ties "
          "lexer+parser+walk+API to /repo on the malformed stream (CST compared node by node with spans). Runtime part (stack, time, allocator) validated by running: "
          "100000 brackets, multi-MB strings, 1.5 MB objects under a 60 s hang guard, serde_json values to depth 127, hook call counter = node count.", "6/C05"),
